@@ -464,9 +464,14 @@ func TestC03Exhaustive(t *testing.T) {
 	for i := 0; i < 9; i++ {
 		total *= 3
 	}
-	for mode := 0; mode < 3; mode++ {
+	for mode := 0; mode < 5; mode++ {
 		for code := 0; code < total; code++ {
 			c := Case{N: 3, Edb: make([]bool, 3)}
+			if mode >= 3 {
+				// modes 3, 4: the plain presentation through parser and analysis, every predicate with a fact
+				// of its own, facts before (3) or after (4) the rules
+				c.ViaText, c.FactsFor, c.FactsLast = true, []int{0, 1, 2}, mode == 4
+			}
 			x := code
 			for u := 0; u < 3; u++ {
 				plain := Rule{Head: u}
